@@ -99,7 +99,7 @@ def _maker(case0, case, geom, il, mat, numpy):
     return lambda: geom.createPolygons([numpy.array(p, dtype=dt) for p in case['polys']], il, mat)
 
 
-def xml_source(i, n, nc, raw=None, names=None):
+def xml_source(i, n, nc, raw=None, names=None, attrs=None):
     names = COMPS[nc] if names is None else names
     if raw is None and list(names) == ['S', 'T', 'P'] and nc == 2:
         data = [val(i, r, c) for r in range(n) for c in range(3)]      # the loader keeps columns 0 and 1
@@ -107,8 +107,10 @@ def xml_source(i, n, nc, raw=None, names=None):
         data = src_data(i, n, nc) if raw is None else raw
     params = ''.join(('<param name="%s" type="float"/>' % c) if c else '<param type="float"/>' for c in names)
     return ('<source id="s%d"><float_array id="s%d-array" count="%d">%s</float_array><technique_common>'
-            '<accessor source="#s%d-array" count="%d" stride="%d">%s</accessor></technique_common></source>'
-            % (i, i, len(data), ' '.join(str(x) for x in data), i, n, len(names), params))
+            '<accessor source="#s%d-array" count="%d" stride="%s">%s</accessor></technique_common></source>'
+            % (i, i, len(data), ' '.join(str(x) for x in data), i,
+               n if attrs is None else attrs[2], ('%d' % len(names)) if attrs is None else '%d" offset="%d' % (attrs[0], attrs[1]),
+               params))
 
 
 def form_names(form, nc):
@@ -135,7 +137,7 @@ def xml_doc(case):
     else:
         pn = case.get('pnames') or {}
         for i, (n, nc) in enumerate(case['srcs']):
-            parts.append(xml_source(i, n, nc, names=pn.get(str(i))))
+            parts.append(xml_source(i, n, nc, names=pn.get(str(i)), attrs=(case.get('acc_attrs') or {}).get(str(i))))
         verts = None
         for off, sem, tgt in case['inputs']:
             if tgt[0] == 'verts':
